@@ -21,7 +21,7 @@ EXPLANATION = (
 TRUSTED = _c02.TRUSTED + ["symbolic decimal-string model of str(int), slicing, concatenation, rstrip('0'), digit comparisons (pysym/strings.py)"]
 ASSUMPTIONS = ["binary exponent and sign concrete per obligation; digit count dps concrete"]
 BUDGET = {'quick': dict(ob_deadline_s=120, total_s=165), 'thorough': dict(ob_deadline_s=900, total_s=2400)}
-BOUNDS = {'quick': 'mantissas 1..12 bits at exponents -30..20, and 40..60-bit mantissas (longer than the printing precision) near unit magnitude; dps 1..5'}
+BOUNDS = {'quick': 'mantissas 1..12 bits at exponents -30..20, and 40..60-bit mantissas (longer than the printing precision) near unit magnitude; dps 1..5; options strip_zeros / min_fixed / max_fixed / show_zero_exponent on five shapes; special values'}
 
 
 def obligations(tier, seed=0):
@@ -39,6 +39,18 @@ def obligations(tier, seed=0):
     for bc, exp in [(1, 0), (3, 0), (5, -2), (5, 0), (8, -10), (10, 3), (4, -30), (12, 20), (7, -7), (9, 10), (6, -20), (2, 13)]:
         for dps in (1, 2, 3, 5):
             add(bc=bc, exp=exp, dps=dps, sign=(bc + dps) % 2)
+    # formatting options: the value claim is unchanged; plus forced fixed-point has no exponent, show_zero_exponent always has one,
+    # strip_zeros=False shows at least dps digits
+    big = 10 ** 6
+    for bc, exp, dps in [(8, -10, 3), (5, 0, 2), (12, 20, 3), (4, -30, 2), (9, 10, 5)]:
+        add(bc=bc, exp=exp, dps=dps, sign=bc % 2, opts=dict(strip_zeros=False), fmt='full')
+        add(bc=bc, exp=exp, dps=dps, sign=dps % 2, opts=dict(min_fixed=-big, max_fixed=big), fmt='fixed')
+        add(bc=bc, exp=exp, dps=dps, sign=0, opts=dict(min_fixed=0, max_fixed=0))
+        add(bc=bc, exp=exp, dps=dps, sign=1, opts=dict(show_zero_exponent=True), fmt='exp0')
+    for kind in ('zero', 'inf', 'ninf', 'nan'):
+        for dps in (0, 1, 15):
+            obs.append((FS + 'to_str_special', dict(kind=kind, dps=dps)))
+        obs.append((FS + 'to_str_special', dict(kind=kind, dps=5, opts=dict(show_zero_exponent=True))))
     if thorough:
         for bc, exp, dps in [(70, -69, 3), (80, -75, 4), (53, -52, 15), (24, -20, 6), (64, 30, 5)]:
             add(bc=bc, exp=exp, dps=dps, sign=0)
